@@ -103,8 +103,9 @@ CLAIMS = {
         technique='contract-based deductive verification: emission automaton clauses over a ghost wire log, z3',
         design='5/C08, App. A'),
     'C09': dict(
-        level='proof',
-        text='Cancellation contracts proved for every handler (exactly one CANCEL on the own stream then release; responder cancels the producing future / '
+        level='other',
+        text='Deductive verification with one open known finding (a requester\'s cancel() of a CHANNEL only closes its receiving direction - its own publisher keeps '
+             'sending after CANCEL; pinned by a stable test, see known_findings.json; hence "other"). Cancellation contracts proved for every handler (exactly one CANCEL on the own stream then release; responder cancels the producing future / '
              'subscription exactly once; a requester channel CANCEL ends the channel; nothing delivered to the canceller afterwards; no second CANCEL after '
              'termination) with the frame clause that other streams are untouched, and for the library sources: cancel() / dispose() of StreamFromGenerator / '
              'StreamFromAsyncGenerator are total in every state reachable from __init__ (before subscribe, before the first request, requested but feeder '
